@@ -37,8 +37,12 @@ CTOR = {
 # init(&obj) / destroy(&obj) pairs on objects named by address
 INIT = {"carquet_buffer_init": {"carquet_buffer_destroy"},
         "carquet_buffer_init_capacity": {"carquet_buffer_destroy"},
-        "dict_builder_init": {"dict_builder_destroy"}}
-INIT_RETURNS_STATUS = {"carquet_buffer_init_capacity", "dict_builder_init", "carquet_arena_init"}
+        "dict_builder_init": {"dict_builder_destroy"},
+        # zlib streams (inflateInit2 / deflateInit2 are macros over the *_ entry points; Z_OK == 0)
+        "inflateInit2_": {"inflateEnd"}, "inflateInit_": {"inflateEnd"},
+        "deflateInit2_": {"deflateEnd"}, "deflateInit_": {"deflateEnd"}}
+INIT_RETURNS_STATUS = {"carquet_buffer_init_capacity", "dict_builder_init", "carquet_arena_init",
+                       "inflateInit2_", "inflateInit_", "deflateInit2_", "deflateInit_"}
 
 MAX_STATES = 6000
 
